@@ -14,7 +14,7 @@ from vf.taps.montap import montap
 
 LEVEL = "fault_enumeration"
 RULE = (
-    "fault enumeration: valid generated programs (a third of them with runs of statements moved into (nested) .include files) x 74 classes of definite error (invalid characters incl. NUL / DEL / non-ASCII, unterminated string, unknown keyword, "
+    "fault enumeration: valid generated programs (a third of them with runs of statements moved into (nested) .include files) x 77 classes of definite error (invalid characters incl. NUL / DEL / non-ASCII, unterminated string, unknown keyword, "
     "missing brace, a brace closed once too often, a macro defined only in a branch / loop that is not assembled or below its application, a byte that is no valid UTF-8 inside a source file (file entry points), a misspelled .map attribute, missing operand, undefined symbol in a sized operand / in data, undefined macro, too few macro arguments, undefined symbol in a macro argument the body never reads, in an unused `=` symbol, in `*=`, unsupported "
     "addressing mode, unsupported width, out-of-range branch, unmapped address, missing .include/.incbin/.table/.include_ips file) inserted "
     "at every statement position that is always expanded (thorough) or 6 positions (quick) x 5 entry points (string API, Program.assemble, "
@@ -110,6 +110,10 @@ FAULTS = {
     "missing_incbin": ("semantic", ".incbin 'nofile_zz9.bin'"),
     "missing_table": ("semantic", ".table 'nofile_zz9.tbl'"),
     "missing_include_ips": ("semantic", ".include_ips 'nofile_zz9.ips', 0"),
+    # a block comment that is opened and never closed (the rest of the file disappears in it): a lexical error, whatever follows the opener
+    "unterminated_comment": ("syntax", "/* never closed"),
+    "unterminated_comment_opener_and_slash": ("syntax", "/*/"),
+    "unterminated_comment_ending_in_a_star": ("syntax", "/* almost *"),
 }
 ENTRIES = ["string", "assemble", "patch", "cli", "cli_sfc"]
 
